@@ -1,6 +1,7 @@
 package main
 
 import (
+	"time"
 	"encoding/json"
 	"fmt"
 	"math"
@@ -75,7 +76,7 @@ func genShard(c *rig.Ctx, i int) Case {
 	return cs
 }
 
-var verifRestConfig = &rest.Config{Host: "http://127.0.0.1:1", QPS: 10000, Burst: 10000}
+var verifRestConfig = &rest.Config{Host: "http://127.0.0.1:1", QPS: 10000, Burst: 10000, Timeout: 5 * time.Second}
 
 // shardResult is an int (as decimal string) or "panic".
 func implShard(name string, n int) string {
